@@ -262,10 +262,18 @@ func oracleC02(p *plan.Plan, his []plan.Rec, res *plan.Result) {
 	// A second member that stops before the cluster has re-stabilised after the first stop hits the
 	// window in which rebalancing has concentrated the copies of a partition (known finding).
 	nstops, settled := 0, true
+	firstStop := int64(-1)
+	retryAfter := int64(3000) * 1e6 // go-redis' default read time-out of the cluster client
+	if t := int64(p.Cluster.ClientReadTimeoutMs) * 1e6; t > 0 && t < retryAfter {
+		retryAfter = t
+	}
 	for _, r := range sortRecs(his) {
 		switch r.Op.K {
 		case "ctl.leave", "ctl.crash", "ctl.crash_inflight":
 			if r.Err == "" {
+				if firstStop < 0 {
+					firstStop = r.TInv
+				}
 				nstops++
 				if nstops >= 2 && !settled {
 					tag += " unsettled-double-failure"
@@ -306,7 +314,20 @@ func oracleC02(p *plan.Plan, his []plan.Rec, res *plan.Result) {
 				} else if a.hasAck && a.lastAck == "" {
 					class = "delete-undone"
 				}
-				viol(res, class, r.Op.Key+tag, "Get(%s) through survivor %s returned %q; allowed after the acknowledged history: %v; writes: %s", r.Op.Key, who, v, keysOf(a.vals), writesOf(his, r.Op.Key))
+				extra := ""
+				if w := writerOf(his, r.Op.Key, v); w != nil {
+					switch {
+					case class == "delete-undone" && firstStop >= 0 && w.TInv >= firstStop:
+						// the value that came back was itself written while the routing tables were changing
+						// (known finding, same root cause as C03 "written-during-handover")
+						extra = " written-during-handover"
+					case class == "stale-or-wrong-value" && w.TRet-w.TInv >= retryAfter:
+						// the older value's own Put ran into the client read time-out and was re-sent by
+						// the client library: its first attempt may complete after a later Put (known finding)
+						extra = " retried-put-applied-late"
+					}
+				}
+				viol(res, class, r.Op.Key+tag+extra, "Get(%s) through survivor %s returned %q; allowed after the acknowledged history: %v; writes: %s", r.Op.Key, who, v, keysOf(a.vals), writesOf(his, r.Op.Key))
 			}
 		}
 		if len(seen) > 1 {
@@ -361,6 +382,18 @@ func keysOf(m map[string]bool) []string {
 	}
 	sort.Strings(ks)
 	return ks
+}
+
+// writerOf returns the last write of the phases before verification that wrote value v ("=<val>") to key.
+func writerOf(his []plan.Rec, key, v string) *plan.Rec {
+	var w *plan.Rec
+	for i := range his {
+		r := &his[i]
+		if r.Op.K == "put" && r.Op.Key == key && "="+r.Op.Val == v && r.Phase <= 1 {
+			w = r
+		}
+	}
+	return w
 }
 
 func writesOf(his []plan.Rec, key string) string {
